@@ -312,5 +312,22 @@ PROPS['C06']['text'] += ' R6: the score carried forward on acceptance is the pro
 PROPS['C08']['text'] += ' R6: the enclosing radius the starting cell is sized by encloses the shape (C01.R6, imported). R7: clones keep parameters and family (C09.R3, imported).'
 PROPS['C15']['text'] += ' R4: the operations applied are the group\'s (C16 R1-R3, imported).'
 PROPS['C16']['text'] += ' R7: the cell built for a family is one its operations leave invariant (C04.R3, imported).'
+# ---- seeded round 8 ------------------------------------------------------------------------------------------------------------------
+for _p in PROPS.values():
+    _p['text'] += ' WIRE also reads struct literals: a field is not given the value named like another field of the same struct.'
+PROPS['C13']['text'] += ' R5 also for <LJShape2 as Shape>::score, the second spelling of the molecule sum.'
+PROPS['C17']['text'] += " R3 also: the digit step is taken for exactly '0'..='9'. R6: the constructors that parse the group tables contain no panic-capable site (C20.R1, imported)."
+PROPS['C20']['text'] += ' R3: the improvement test is strictly less-than. R1: a constant index into get_corners() is below 4.'
+PROPS['C10']['text'] += ' R9: the arms of the (shape, potential) dispatch build pairwise different structures. R10: every replica stage is seeded with the replica index (C09.R4/R6, imported).'
+PROPS['C01']['text'] += ' PAIRTEST also imports C12.R4; PLACEMENTS: the copies tested are the group\'s copies of the site, wrapped into the cell (C15 R2/R3, imported).'
+PROPS['C02']['text'] += ' NOOVERLAP: the structural clauses of C01 (R1, R3-R6) are imported; SHAPE: C12.R7 is imported.'
+PROPS['C03']['text'] += ' PLACEMENTS: C15 R2/R3 are imported.'
+PROPS['C06']['text'] += ' R8: clone fidelity (C09.R3, imported).'
+PROPS['C07']['text'] += ' R7: setter fidelity for kt_start / kt_finish / kt_ratio.'
+PROPS['C09']['text'] += ' R9: the files written are a function of this run alone (C10.R3, imported).'
+PROPS['C11']['text'] += ' R8: the images drawn are the lattice translates within one shell (C14.R3, imported).'
+PROPS['C15']['text'] += ' R5: a cloned site is the same site (C09.R3, imported).'
+PROPS['C16']['text'] += ' R7 also imports C04.R4 (a cloned cell keeps family and parameters).'
+PROPS['C19']['text'] += ' R5: the declared parameter ranges the step is scaled by (C08.R3, imported).'
 PROPS['C18']['text'] += ' R2 also: every non-constant factor path of the builder that admits a given ratio yields 1 - ratio (the ratio has precedence over kt_finish).'
 
